@@ -43,6 +43,8 @@ let bytes_out (o : byte list outcome) : string =
    statements, not a proof: a failing law is reported as a mismatch of its own). *)
 let laws_checked = ref 0
 let dec_seen = ref 0
+let unk_ok_seen = ref 0
+let unk_bad_seen = ref 0
 let law name b = incr laws_checked; if not b then failwith ("law " ^ name ^ " fails")
 let out_map f = function Ok v -> Ok (f v) | Err -> Err | Panic -> Panic | OutOfFuel -> OutOfFuel
 let enc_laws sch m v =
@@ -51,9 +53,10 @@ let enc_laws sch m v =
     law "C02.det_eq_ref" (ref_marshal sch m v = e1);
     law "C04.size_eq_len" (msg_size sch m v = n_of_int (List.length e1) && msg_size sch m v = n_of_int (List.length e0));
     law "C05.canon_emit" (emit sch true m (canon v) = e1);
+    if unknowns_okb sch m v then incr unk_ok_seen else incr unk_bad_seen;
     (match pulsar_unmarshal sch false m VNil e0 with
      | Ok r -> law "C01.roundtrip_nondet" (r = norm sch m v); law "C06.accepted_wt" (wt_msg sch m r)
-     | _ -> law "C01.roundtrip_nondet_ok" false);
+     | _ -> law "C01.roundtrip_nondet_ok" (not (unknowns_okb sch m v)));
     (match pulsar_unmarshal sch false m VNil e1 with
      | Ok r -> law "C01.roundtrip_det" (canon r = canon (norm sch m v))
      | _ -> law "C01.roundtrip_det_ok" false);
@@ -96,6 +99,10 @@ let eval fn args =
   in
   go !evaluators
 
+(* --shard i/n: evaluate only every n-th case (directives are always processed) *)
+let shard = ref (0, 1)
+let seen = ref 0
+
 let run_file path =
   let ic = open_in path in
   let total = ref 0 and mism = ref 0 and lineno = ref 0 in
@@ -113,7 +120,12 @@ let run_file path =
              | [] -> failwith (Printf.sprintf "line %d: no '=' separator" !lineno)
            in
            let args, obs = cut [] rest in
+           (* context lines (FN starting with '@') carry state for later lines: every shard evaluates them *)
+           let is_ctx = String.length fn > 0 && fn.[0] = '@' in
+           let fn = if is_ctx then String.sub fn 1 (String.length fn - 1) else fn in
            if Ctx.handle_directive fn args obs then ()
+           else if (not is_ctx) && (incr seen; !seen mod snd !shard <> fst !shard) then ()
+           else if is_ctx && fst !shard <> 0 then ignore (try eval fn args with _ -> "")
            else begin
              incr total;
              let m = try eval fn args with Failure e -> "driver-error:" ^ e | Stack_overflow -> "driver-error:stack" in
@@ -128,5 +140,5 @@ let run_file path =
      done
    with End_of_file -> ());
   close_in ic;
-  Printf.printf "DRIVER\tcases=%d\tmismatches=%d\n" !total !mism
+  Printf.printf "DRIVER\tcases=%d\tmismatches=%d\tlaws=%d\tunk_ok=%d\tunk_bad=%d\n" !total !mism !laws_checked !unk_ok_seen !unk_bad_seen
 
